@@ -1,16 +1,12 @@
-(* "Exactly one level applies": stated on `applied` (Strategies.v), which follows the re-entry of
-   the registry after an annotation-driven strategy.  Refuted for Annotated aliases (the spec keeps
-   the alias on re-entry: known finding stale-annotated-alias); proved when there is no Annotated
-   alias and nothing is registered for the re-entry type itself. *)
+(* "Exactly one level applies": stated on `applied` (Strategies.v), which follows the re-entry of the registry after
+   an annotation-driven strategy.  Since /repo ed8922a the re-entry carries no alias (annotated_type=None), so `applied`
+   is used with stale = []: at most one customization is applied, whatever the field's alias, provided nothing is
+   registered for the strategy's own annotated type (such a registration applies to the intermediate value by design). *)
 From Coq Require Import List String Ascii ZArith Bool Arith Lia.
 From Verif Require Import Regex PyK PyK_strat Strategies StrategiesProofs.
 Import ListNotations.
 Open Scope nat_scope.
 Open Scope list_scope.
-
-Definition single_application_full : Prop :=
-  forall Sr An T O anyk d,
-    exists l b, applied 3 Sr (keys_of An T O) (stale_of An) anyk d true = Some (l, b) /\ List.length l <= 1.
 
 Definition no_key (Sr: sources) (k: kv) : Prop :=
   forall l t, tbl Sr l = Some t -> tlookup t k = None.
@@ -59,11 +55,11 @@ Proof.
     + apply Hreg. reflexivity.
 Qed.
 
-Theorem single_application_partial Sr An T O anyk d :
-  k_truthy An = false -> no_key Sr anyk ->
-  exists l b, applied 3 Sr (keys_of An T O) (stale_of An) anyk d true = Some (l, b) /\ List.length l <= 1.
+Theorem single_application Sr An T O anyk d :
+  no_key Sr anyk ->
+  exists l b, applied 3 Sr (keys_of An T O) [] anyk d true = Some (l, b) /\ List.length l <= 1.
 Proof.
-  intros Ha Hno. unfold stale_of. rewrite Ha. cbn [applied app].
+  intros Hno. cbn [applied app].
   destruct (resolve Sr (keys_of An T O) d) as [[s [|m|e|v]]|] eqn:Hr.
   - eexists _, _. split; [reflexivity|cbn; lia].
   - eexists _, _. split; [reflexivity|cbn; lia].
@@ -72,46 +68,11 @@ Proof.
   - eexists _, _. split; [reflexivity|cbn; lia].
 Qed.
 
-(* ---- refutation: the two witnesses of the known finding ---- *)
+(* the two shapes that failed before ed8922a (Annotated alias + use_annotations strategy) *)
 Definition wAnn := KObj 11.  Definition wEx := KObj 12.  Definition wOr := KObj 13.  Definition wAny := KObj 19.
-Definition empty_sources : sources :=
-  {| f_ser := None; f_de := None; f_strat := None; t_call := None; t_cfgd := None; t_cfg := []; t_dflt := None |}.
-
-(* (a) a use_annotations strategy registered for the Annotated alias: the compilation never terminates *)
 Definition w_rec : sources :=
   {| f_ser := None; f_de := None; f_strat := None; t_call := None; t_cfgd := None;
      t_cfg := [(wAnn, VStrat true false 7 107)]; t_dflt := None |}.
-
-Lemma w_rec_step d : resolve w_rec [wAnn; wAny; wAny] d = Some (SReg 0 LCfg, WAnn (VStrat true false 7 107)).
-Proof. destruct d; reflexivity. Qed.
-
-Lemma w_rec_diverges fuel d first :
-  applied fuel w_rec [wAnn; wAny; wAny] [wAnn] wAny d first = None.
-Proof.
-  revert first. induction fuel as [|n IH]; intros first; [reflexivity|].
-  cbn [applied]. rewrite w_rec_step. cbn [app]. rewrite IH. reflexivity.
-Qed.
-
-Theorem recursion_witness fuel d :
-  applied fuel w_rec (keys_of wAnn wEx wOr) (stale_of wAnn) wAny d true = None.
-Proof.
-  destruct fuel as [|n]; [reflexivity|]. cbn [applied].
-  replace (resolve w_rec (keys_of wAnn wEx wOr) d) with (Some (SReg 0 LCfg, WAnn (VStrat true false 7 107)))
-    by (destruct d; reflexivity).
-  cbn [stale_of k_truthy wAnn app]. fold wAnn. rewrite w_rec_diverges. reflexivity.
-Qed.
-
-(* (b) field strategy with use_annotations + a registration for the alias: two levels apply *)
 Definition w_double : sources :=
   {| f_ser := None; f_de := None; f_strat := Some (VStrat true false 2 102); t_call := None; t_cfgd := None;
      t_cfg := [(wAnn, VDict (Some (FFn 9)) (Some (FFn 109)))]; t_dflt := None |}.
-
-Theorem double_witness :
-  applied 3 w_double (keys_of wAnn wEx wOr) (stale_of wAnn) wAny Ser true = Some ([2; 9], 1).
-Proof. reflexivity. Qed.
-
-Theorem single_application_refuted : ~ single_application_full.
-Proof.
-  intros H. destruct (H w_double wAnn wEx wOr wAny Ser) as (l & b & Happ & Hlen).
-  rewrite double_witness in Happ. inversion Happ; subst. cbn in Hlen. lia.
-Qed.
